@@ -144,6 +144,14 @@ func init() {
 		fmt.Println("PROPOSAL", names(S.Proposal))
 		fmt.Println("VOTEEXT", names(S.VoteExt))
 		fmt.Println("consensus funcs", len(P.Consensus()), "block-reachable", len(P.Reachable(S.Block, nil)))
+		if os.Getenv("DUMP_FUNCS") != "" {
+			// the named functions of the reviewed tree (tools/gen_counts.py freezes them into funcs_table.go)
+			for _, fn := range P.RepoFuncs {
+				if fn.Parent() == nil {
+					fmt.Println("FUNC", FuncName(fn))
+				}
+			}
+		}
 		if f := os.Getenv("DUMP_FN"); f != "" {
 			for _, fn := range P.RepoFuncs {
 				if strings.Contains(FuncName(fn), f) {
